@@ -719,6 +719,26 @@ def check_gridflow(ctx: Ctx, ncells, cw, hsep, vsep, align, focus, maxcol, tall)
     if canv.cols() != maxcol:
         V("cell-width", f"canvas is {canv.cols()} wide, asked {maxcol}")
         return
+    # the same GridFlow after its cell width is reassigned (the earlier canvas still alive): every cell gets the new width
+    w_seen = {w}
+    for cw2 in sorted({cw + 1, max(1, cw - 1)} - {cw}):
+        for p in probes:
+            del p.log[:]
+        ctx.count("evaluations")
+        ok, _ = guarded(ctx, V, "cell_width=", lambda: setattr(gf, "cell_width", cw2))
+        if not ok:
+            break
+        ok, canv2 = guarded(ctx, V, "render", lambda: gf.render((maxcol,), False))
+        if not ok:
+            break
+        w2 = min(cw2, maxcol)
+        # (a cell at a width it was rendered at before may come from the canvas cache: no render call at all)
+        bad = [(i, [r[1] for r in p.renders()]) for i, p in enumerate(probes)
+               if [r[1] for r in p.renders()] != [(w2,)] and not (w2 in w_seen and not p.renders())]
+        w_seen.add(w2)
+        if bad:
+            V("cell-width", f"after cell_width = {cw2} (was {cw}): cell {bad[0][0]} render sizes {bad[0][1]}, expected [({w2},)]", "reassigned")
+            break
     cm = cell_map(canv)
     pos = {}
     area = {}
